@@ -2479,6 +2479,11 @@ def main(
     # read animal population data
     df_animal_stock_info = AnimalDataReader.read_animal_population_data(population_csv)
 
+    if country_code == "SWT":
+        # this indicates swaziland, which is "SWZ" in non-cleaned-up FAOSTAT data
+        # (resolved before the overrides below so that they land on the row that is actually read)
+        country_code = "SWZ"
+
     # custom animal stock info
     if constants_inputs:
         for key, value in constants_inputs.items():
@@ -2501,10 +2506,6 @@ def main(
 
     # WHEN INTEGRATING, THESE CREATION OF OBJECTS SHOULD BE DONE OUTSIDE OF THE MAIN FUNCTION
     # AND ONLY ON THE FIRST RUN OF THE MODEL
-
-    if country_code == "SWT":
-        # this indicates swaziland, which is "SWZ" in non-cleaned-up FAOSTAT data
-        country_code = "SWZ"
 
     # # Populate animal objects ##
     # create animal objects
